@@ -170,6 +170,7 @@ def compile_harness(th, variant, vdir, sources, out_name, extra=""):
         return out
     cc = "clang" if variant == "tsan" else "gcc"
     flags = VARIANTS[variant][1]
+    sources = list(sources) + sorted(os.path.join(hd, f) for f in os.listdir(hd) if f.startswith("extra_") and f.endswith(".c"))
     cmd = "%s %s -std=gnu11 -w -I%s/src -I%s -I%s/harness %s %s -o %s.tmp %s/libturbojpeg.a -lm -lpthread" % (
         cc, flags, REPO, vdir, VERIF, extra, " ".join(sources), out, vdir)
     r = run(cmd, shell=True)
